@@ -127,7 +127,7 @@ PROPS["C14"] = dict(
         # what a frame contains is counted, not timed: a malformed or leaking frame is reported even when the schedule that
         # produced it (items built concurrently) does not recur in the confirmation replay
         rapid("Frames", "TestFrames", 800, 40000, shards=(8, 16), config_toml=_NET, timeout=dict(quick=600, thorough=3000),
-              retry_confirm=4, trust_unconfirmed=r"not well-formed terminal text|still active at"),
+              retry_confirm=4, trust_unconfirmed=r"not well-formed terminal text|still active at|is not the frame of the current state"),
     ],
     manifest=dict(
         text=("Property-based testing against an SGR terminal-state emulator: generated style-function expression trees are compared "
@@ -155,7 +155,7 @@ PROPS["C16"] = dict(
         # a frame of the wrong height cannot be a timing artefact of the harness (frames are counted, not timed), so such a
         # failure is reported even when it depends on the schedule and does not reproduce from the saved case
         rapid("Frames", "TestFrames", 1600, 60000, shards=(8, 16), config_toml=_NET, timeout=dict(quick=600, thorough=3000),
-              retry_confirm=4, trust_unconfirmed=r"terminal has \d+ lines"),
+              retry_confirm=4, trust_unconfirmed=r"terminal has \d+ lines|is not the frame of the current state"),
     ],
     exhaustive_claim=["GeomEnum"],
     manifest=dict(
@@ -261,7 +261,7 @@ PROPS["C01"] = dict(
         rapid("Render", "TestRender", 20000, 400000),
         rapid("Net", "TestNet", 4000, 160000, config_toml=_NET),
         rapid("Frames", "TestFrames", 800, 40000, shards=(8, 16), config_toml=_NET, timeout=dict(quick=600, thorough=3000),
-              retry_confirm=4, trust_unconfirmed=r"is not terminal-clean"),
+              retry_confirm=4, trust_unconfirmed=r"is not terminal-clean|is not the frame of the current state"),
         fuzz("Fuzz", "FuzzRender", "180s"),
     ],
     manifest=dict(
@@ -402,7 +402,7 @@ PROPS["C10"] = dict(
     units=[
         rapid("Prop", "TestProp", 8000, 400000, config_toml="[network]\ntimeout_seconds = 1\ncache_size = 16\n"),
         rapid("UIPaging", "TestUIPaging", 240, 8000, shards=(8, 16), config_toml=_NET + "cache_size = 16\n", timeout=dict(quick=600, thorough=3000),
-              retry_confirm=3, trust_unconfirmed=r"holds .* at position"),
+              retry_confirm=3, trust_unconfirmed=r"holds .* at position|is not the frame of the current state"),
     ],
     manifest=dict(
         text=("Stateful property-based testing: generated page chains (in memory and served by the loopback simulator) are paged with "
@@ -510,7 +510,8 @@ PROPS["C07"] = dict(
           "history opens a further page and moves the cursor beyond the first preload window, or uses selection or command mode. "
           "Distinct = distinct (world, events)."),
     units=[
-        rapid("Prop", "TestProp", 4000, 160000, shards=(8, 16), config_toml=_NET, timeout=dict(quick=600, thorough=3000)),
+        rapid("Prop", "TestProp", 4000, 160000, shards=(8, 16), config_toml=_NET, timeout=dict(quick=600, thorough=3000),
+              retry_confirm=3, trust_unconfirmed=r"is not the frame of the current state"),
     ],
     manifest=dict(
         text=("Stateful model-based testing of the whole UI: generated key histories over generated worlds, compared after every "
